@@ -24,6 +24,7 @@ const (
 	VerifWatcher     = runtime.VerifWatcher
 	VerifAfterSelect = runtime.VerifAfterSelect
 	VerifCallNative  = runtime.VerifCallNative
+	VerifDoneSelect  = runtime.VerifDoneSelect
 )
 
 // VerifOps maps the names of the operations a scheduler cares about to their
